@@ -964,7 +964,11 @@ class LangServer:
         # Search through all files
         def_name: str = def_obj.name.lower()
         def_fqsn: str = def_obj.FQSN
-        NAME_REGEX = re.compile(rf"(?:\W|^)({def_name})(?:\W|$)", re.I)
+        # The separator after the name must not be consumed (`i+i`) and the name
+        # is literal text (it may contain `$`)
+        NAME_REGEX = re.compile(
+            rf"(?:[^\w$]|^)({re.escape(def_name)})(?![\w$])", re.I
+        )
         if file_obj is None:
             file_set = self.workspace.items()
         else:
